@@ -19,5 +19,18 @@ META = {
   "note": "Trusted: rustc resolution, std collections. Not decided: semantic completeness of the join iterator, order independence (see C11).",
   "design_ref": "DESIGN.md §3 C05",
  },
+
+ "C10": {
+  "technique": "static analysis: structural rules over the HIR of the fixpoint loop and the authorizer entry points (position and operator of each budget test, accounting assignments), may-depend analysis over MIR for the stored execution time, reachability of unchecked budget arithmetic",
+  "text": "Decides structural necessary conditions of C10 for all programs and limit triples: each round of the fixpoint loop that added facts passes an iteration, a fact (on the merged world) and a time test with >=/> before the next round; consumed iterations are accumulated on every exit; authorize/query/query_all compute remaining budgets with checked subtraction / guarded subtraction; *_with_limits store earlier time + own time; every query loop of authorize_inner tests the deadline. It does not decide promptness inside one iteration or wall-clock behaviour.",
+  "note": "Trusted: rustc resolution, std::time. The rules are tied to the current shape of the loop (tests as top-level statements of the loop body); a refactoring that moves them into a helper needs the rule re-anchored.",
+  "design_ref": "DESIGN.md §3 C10",
+ },
+ "C11": {
+  "technique": "static analysis: type-directed detection of hash-ordered iterators in MIR (revealed local types) and CFG classification of their consumers (first-element reads, loop early exits and their returned constants, collect into Result); shared fixpoint-structure rules",
+  "text": "Decides, for every token/authorizer and every hash seed at once, whether any code on the run/authorize/query path can observe the iteration order of a HashMap/HashSet: every consumer of a hash-ordered iterator is classified as order-insensitive (exhaustive loop, single-constant early exit, set/map collect, commutative fold) or order-sensitive. Six order-sensitive consumers exist on the pinned tree and are reported as known findings (each demonstrated); any further one is a violation.",
+  "note": "Trusted: MIR reveals opaque iterator types; classification table in rules/order.py. Not decided: user extern functions, time limits, order of returned Vecs (treated as sets). Exhaustive loops are assumed to have order-independent bodies except for the fact-store rules shared with C05.",
+  "design_ref": "DESIGN.md §3 C11",
+ },
 }
 NOT_APPLICABLE = {}
